@@ -335,8 +335,9 @@ def jsText (s : Script) : R Str :=
   else commonFuncsJs s.functions true
 
 def afterJsBody (stmts : List Node) : List Node :=
-  match bodyStmts stmts with
-  | .ok body => if body.length = stmts.length then afterJsList stmts else afterJsList body ++ stmts.drop body.length
+  match endsWithExit stmts with
+  | .ok true => afterJsList stmts.dropLast ++ stmts.drop (stmts.length - 1)
+  | .ok false => afterJsList stmts
   | .error _ => stmts
 
 def afterJsScript (s : Script) : Script :=
